@@ -34,6 +34,20 @@ Theorem C25_event_body : forall h e m id d,
 Proof. exact event_body. Qed.
 Print Assumptions C25_event_body.
 
+(* Register histories: one player sends several registrations (and unregistrations); the set of channels
+   already known for the player grows and shrinks.  At EVERY step, whatever is already known — new
+   channels, all known, a subset, none valid, over the cap — a registration that was forwarded raises
+   exactly one register event (carrying getChannels' identifiers for the channel count of that moment) and
+   one that was not forwarded raises none. *)
+Theorem C25_register_event_history : forall known e ms,
+  Forall2 (fun m eo => classify (m_ch m) = KRegister ->
+             (forwarded m (snd eo) = true ->
+                exists n, o_events (snd eo) = [ERegister (parse_channels (e_ver13 e) n (m_data m))]) /\
+             (forwarded m (snd eo) = false -> o_events (snd eo) = []))
+          ms (reg_history true true known e ms).
+Proof. exact register_event_history. Qed.
+Print Assumptions C25_register_event_history.
+
 (* The same for histories: several plugin messages back to back through the same handler instance
    (the events run asynchronously, so an earlier event may still be in flight when a later message is
    handled): every event exposes the body of ITS OWN message, and what is written for a message is that
@@ -125,3 +139,10 @@ Proof. exact nonvacuous_event. Qed.
 Example C25_nonvacuous_history :
   map o_events (spec_history HBackendPlay env0 two_msgs) = [[EPM [109;121;58;99] [222;173]]; [EPM [109;121;58;99] [1;2]]].
 Proof. exact nonvacuous_history. Qed.
+
+(* a re-registration of an already known channel is forwarded and raises its event again *)
+Example C25_nonvacuous_register_history :
+  map (fun eo => o_events (snd eo)) (reg_history true true [] reg_env [reg_ab; reg_ab]) =
+    [[ERegister [[97;58;98]]]; [ERegister [[97;58;98]]]] /\
+  map (fun eo => e_existing (fst eo)) (reg_history true true [] reg_env [reg_ab; reg_ab]) = [0; 1].
+Proof. exact nonvacuous_register_history. Qed.
